@@ -876,3 +876,19 @@ func TestVerifReplay(t *testing.T) {
 	}
 	return rec
 }
+
+func (fa *frameAn) takesLock(fn *ssa.Function) bool {
+	for _, b := range fn.Blocks {
+		for _, in := range b.Instrs {
+			if c, ok := in.(*ssa.Call); ok {
+				if f, ok := c.Common().Value.(*ssa.Function); ok {
+					n := f.String()
+					if n == "(*sync.Mutex).Lock" || n == "(*sync.RWMutex).Lock" {
+						return true
+					}
+				}
+			}
+		}
+	}
+	return false
+}
